@@ -11,6 +11,9 @@ func TestMain(m *testing.M) { hx.Main(m, "C09") }
 
 func TestProp(t *testing.T) { hx.Check(t, "program", Gen, Exec) }
 
+// TestPropListRace: listings racing with the last change of a directory (listrace.go).
+func TestPropListRace(t *testing.T) { hx.Check(t, "listrace", GenListRace, ExecListRace) }
+
 func TestReplay(t *testing.T) {
-	hx.Replay(t, map[string]func(json.RawMessage) (hx.Verdict, error){"program": hx.Exec(Exec), "": hx.Exec(Exec)})
+	hx.Replay(t, map[string]func(json.RawMessage) (hx.Verdict, error){"program": hx.Exec(Exec), "": hx.Exec(Exec), "listrace": hx.Exec(ExecListRace)})
 }
